@@ -352,27 +352,32 @@ def make_driver(name: str, rnd: random.Random):
     atoms.calc = calcs.CachingCalc(calcs.Potential(k=0.1, center=(3, 2.5, 3.5)))
     kw = {"seed": rnd.choice([0, 1, 12345, 2**40 + 7]), "logging_interval": rnd.randint(2, 5)}
     T = round(rnd.uniform(50, 900), 2)
+
+    def special(value, *falsy):
+        """Valid values a serializer may mistake for 'not set': zero, negative, integral floats."""
+        return rnd.choice(falsy) if rnd.random() < 0.3 else value
+
     if name == "MonteCarlo":
         mc = cls(atoms, max_cycles=rnd.randint(2, 6), **kw)
     elif name in ("Canonical", "HamiltonianCanonical"):
         mc = cls(atoms, temperature=T, max_cycles=rnd.randint(2, 6), **kw)
     elif name == "Isobaric":
-        mc = cls(atoms, temperature=T, pressure=round(rnd.uniform(0.001, 0.1), 5), max_cycles=rnd.randint(2, 6), **kw)
+        mc = cls(atoms, temperature=T, pressure=special(round(rnd.uniform(0.001, 0.1), 5), 0.0, -0.01, 1.0), max_cycles=rnd.randint(2, 6), **kw)
     elif name == "Isotension":
         a = [round(rnd.uniform(-0.05, 0.05), 5) for _ in range(6)]
-        S = np.array([[a[0], a[3], a[4]], [a[3], a[1], a[5]], [a[4], a[5], a[2]]])
-        mc = cls(atoms, temperature=T, pressure=round(rnd.uniform(0.001, 0.1), 5), external_stress=S, max_cycles=rnd.randint(2, 6), **kw)
+        S = special(np.array([[a[0], a[3], a[4]], [a[3], a[1], a[5]], [a[4], a[5], a[2]]]), np.zeros((3, 3)), np.eye(3) * a[0])
+        mc = cls(atoms, temperature=T, pressure=special(round(rnd.uniform(0.001, 0.1), 5), 0.0, -0.01, 1.0), external_stress=S, max_cycles=rnd.randint(2, 6), **kw)
     elif name == "GrandCanonical":
         ex = Atoms("CO", positions=[[0, 0, 0], [0, 0, 1.13]])
-        mc = cls(atoms, exchange_atoms=ex, temperature=T, chemical_potential=round(rnd.uniform(-1, 1), 4),
-                 number_of_exchange_particles=rnd.randint(1, 3), max_cycles=rnd.randint(2, 6), **kw)
+        mc = cls(atoms, exchange_atoms=ex, temperature=T, chemical_potential=special(round(rnd.uniform(-1, 1), 4), 0.0, 1.0, -1.0),
+                 number_of_exchange_particles=special(rnd.randint(1, 3), 0), max_cycles=rnd.randint(1, 6), **kw)
         mc.accessible_volume = round(rnd.uniform(50, 150), 3)
     elif name == "ForceBias":
         import warnings
         with warnings.catch_warnings():
             warnings.simplefilter("ignore")
             mc = cls(atoms, delta=round(rnd.uniform(0.01, 0.2), 4), temperature=T, **kw)
-        mc.masses_scaling_power = round(rnd.uniform(0.1, 0.9), 3)
+        mc.masses_scaling_power = special(round(rnd.uniform(0.1, 0.9), 3), 0.0, 1.0, 0.25)
     elif name == "AdaptiveForceBias":
         import warnings
         with warnings.catch_warnings():
